@@ -146,9 +146,9 @@ def handler(payload):
         v2 = bool(c.get("v2"))
         if v2:
             # ELE container v2: AHAB certificate signed by the SRK key; configuration follows the AHAB certificate schema
-            cfg2 = {"family": c["family"], "revision": c.get("revision", "latest"), "cc_socu": c["socu"], "uuid": c["uuid"],
+            cfg2 = {"family": c["family"], "revision": c.get("revision", "latest"), "cc_socu": c["socu"], "uuid": "0x" + c["uuid"],
                     "fuse_version": c.get("fuse_version", 0), "public_key_0": os.path.join(K, c["dck"] + ".pub"),
-                    "signer_0": os.path.join(K, c["rotk"] + ".pem")}
+                    "signing_key_0": os.path.join(K, c["rotk"] + ".pem")}
             r = guarded(lambda: DebugCredentialEdgeLockEnclaveV2.create_from_yaml_config(cfg2), seconds=30)
         else:
             r = guarded(lambda: DebugCredentialCertificate.create_from_yaml_config(cfg), seconds=30)
